@@ -113,7 +113,7 @@ def letter_branches(fi):
                     return
                 letters = sorted(admitted - set(letters) - seen)
             out.append((letters, cur.body, cur, _used_prelude(prelude, cur.body)))
-            block(cur.body, prelude, None)
+            # (a test on the same letter nested inside an arm refines that arm; it is not a branch of its own)
             seen |= set(letters)
             if len(cur.orelse) == 1 and isinstance(cur.orelse[0], ast.If):
                 cur = cur.orelse[0]
@@ -123,7 +123,6 @@ def letter_branches(fi):
                     rest = sorted(admitted - seen)
                     if rest:
                         out.append((rest, cur.orelse, cur, _used_prelude(prelude, cur.orelse)))
-                block(cur.orelse, prelude, None)
             return
 
     block(fi.node.body, [], None)
@@ -154,8 +153,9 @@ def classify(body):
                     sib = gp.left if gp.right is p else gp.right
                     if 'affine_out' in ntext(sib):
                         kind = 'out'
-            uses.append(kind)
-    return uses
+            uses.append((kind, ntext(p) if p is not None else ''))
+    # the same scaled quantity written out more than once (instead of through a temporary) is one use
+    return [k for k, _t in sorted(set(uses))]
 
 
 def run(repo):
